@@ -38,11 +38,11 @@ def tens_rx(R, name, const=None):
     return rf'^{pre}4nano8tensor_tINS_23tensor_vector_storage_tEdLm{R}EE{len(name) if name != "cl" else ""}{name}'
 
 
-def run_fn(name, decl, select, hdr, R, setup, post, about, invariants=None):
+def run_fn(name, decl, select, hdr, R, setup, post, about, invariants=None, has_self=True):
     docs, fn = load(TU, FLT, decl, select)
     wp = TWP(name, bindings=nvwp.template_bindings(docs, fn), invariants=invariants or {})
     wp.bindings.setdefault('trank', R)       # member functions of the class template: its rank parameter
-    wp.P0 = wp.sym_tensor('self', R)
+    wp.P0 = wp.sym_tensor('self', R) if has_self else None
     wp.ghost_init()
     keys = wp.bind_params(fn)
     wp.idx = []
@@ -63,7 +63,7 @@ def run_fn(name, decl, select, hdr, R, setup, post, about, invariants=None):
             n = array_len(p['type']) or R
             wp.sym_dims(key, n, 'd')
         elif re.search(tmodel.TENSOR_T, q):
-            wp.sym_tensor(key, tmodel.rank_of(p['type']), 's')
+            wp.sym_tensor(key, tmodel.rank_of(p['type']), key[:3])
         else:
             wp.env[key] = wp.fresh('Int', key, 'long')
             wp.assume(wp.in_range(wp.env[key].t, 'long'))
@@ -317,6 +317,57 @@ def build():
                 [('every row of the result has been written', f'(= {wp.env["ghost.rows"].t} {wp.dim("indices", 0)})')]
         add(run_fn(f'tensor_t<{R}>::indexed(indices)', 'indexed', msel(tens_rx(R, 'indexed', True) + r'IdEEDaNS0_'), T, R, setup_indexed_alloc, post_indexed_ret,
                    'index gather returning a new tensor'))
+
+    # -------------------------------------------------------------------------------- integral.h: index pattern, ranks 2 and 3
+    G = INC + 'integral.h'
+
+    def same_dims(wp):
+        for a, b in zip(wp.elems('itensor.m_dims'), wp.elems('otensor.m_dims')):
+            wp.assume(f'(= {a} {b})')          # the assert in integral()
+
+    for R in (2, 3):
+        def setup_get(wp):
+            same_dims(wp)
+            for a in wp.elems('itensor.m_dims'):
+                wp.assume(f'(>= {a} 1)')       # integral(): size() > 0
+
+        def inv(wp):
+            i0, n = wp.env['i0'].t, wp.env['size0'].t
+            return [('0 <= i0 <= dims[0]', f'(and (<= 0 {i0}) (<= {i0} {n}) (= {n} {wp.dim("itensor", 0)}))'),
+                    ('slices 0 .. i0-1 have been integrated, one call each', f'(= {wp.env["ghost.gets"].t} {i0})'),
+                    ('rows 1 .. i0-1 have received their predecessor, once each', f'(= {wp.env["ghost.adds"].t} (ite (>= {i0} 1) (- {i0} 1) 0))')]
+        inv.havoc = ['ghost.gets', 'ghost.adds', 'ghost.get_in', 'ghost.get_out', 'ghost.add_dst', 'ghost.add_src', 'ghost.add_len']
+        inv.decreases = lambda wp, env: f'(- {env["size0"].t} {env["i0"].t})'
+
+        def body_post(wp, e0, e1, R=R):
+            i0 = e0['i0'].t
+            Pi, Po = wp.P('itensor')[1], wp.P('otensor')[1]
+            ev = wp.events[-2:]
+            order = len(ev) == 2 and ev[0] == ('get', 'itensor', 'otensor', R - 1) and ev[1] == ('add', 'otensor', 'otensor')
+            pos = f'(>= {i0} 1)'
+            return [('slice i0 of the input is integrated into slice i0 of the output',
+                     f'(and (= {e1["ghost.get_in"].t} (* {i0} {Pi})) (= {e1["ghost.get_out"].t} (* {i0} {Po})) (= {e1["ghost.gets"].t} (+ {e0["ghost.gets"].t} 1)))'),
+                    ('for i0 >= 1 output row i0-1 is added to output row i0 (whole rows of P_1 elements), for i0 == 0 nothing is added',
+                     f'(ite {pos} (and (= {e1["ghost.add_dst"].t} (* {i0} {Po})) (= {e1["ghost.add_src"].t} (* (- {i0} 1) {Po})) (= {e1["ghost.add_len"].t} {Po}) '
+                     f'(= {e1["ghost.adds"].t} (+ {e0["ghost.adds"].t} 1))) (= {e1["ghost.adds"].t} {e0["ghost.adds"].t}))'),
+                    ('the slice is integrated first, then the predecessor row is added, both on the right buffers', 'true' if order else 'false')]
+        inv.body_post = body_post
+
+        def post_get(wp, rv):
+            d0 = wp.dim('itensor', 0)
+            return [('every slice has been integrated and every row but the first has received its predecessor',
+                     f'(and (= {wp.env["ghost.gets"].t} {d0}) (= {wp.env["ghost.adds"].t} (- {d0} 1)))')]
+        add(run_fn(f'integral_t<{R}>::get index pattern', 'get', msel(rf'integral_tILm{R}EE3getIalE'), G, R, setup_get, post_get,
+                   'summed-area table recursion: which slices / rows are combined', invariants={1: inv}, has_self=False))
+    for R in (1, 2, 3):
+        def post_integral(wp, rv, R=R):
+            called = [e for e in wp.events if e[0] == 'get']
+            ok = len(called) == 1 and called[0] == ('get', 'itensor', 'otensor', R)
+            return [('a non-empty tensor is integrated exactly once, an empty one is left alone',
+                     f'(= {wp.env["ghost.gets"].t} (ite (> {wp.P("itensor")[0]} 0) 1 0))'),
+                    ('integral_t<R>::get is applied to (itensor, otensor)', 'true' if ok else 'false')]
+        add(run_fn(f'integral<{R}>(cmap, map)', 'integral', msel(rf'8integralIaLm{R}ElE'), G, R, same_dims, post_integral,
+                   'integral(): guards the empty tensor', has_self=False))
 
     # -------------------------------------------------------------------------------- tensor.h: reshape
     for R, N in RESHAPES:
